@@ -86,7 +86,7 @@ def floors(tier):
             'fail_policy_raised': 300, 'histkeys:rule_kind_fired': 3, 'histkeys:scheme': 6, 'histkeys:policy': 6,
             'per_rule_protection_fired': 1000, 'multichar_consumption': 1000,
             'partial_with_explicit_rules': 2000, 'partial_with_empty_rules': 500,
-            'returned_rule_lists_edited_by_caller': 20}
+            'returned_rule_lists_edited_by_caller': 20, 'further_calls_on_same_encoder': 5000}
 
 
 def setup(rec):
@@ -217,6 +217,36 @@ def check_model(case, rec):
     err = M.chunks_match(want, got)
     if err:
         return 'chunks %r differ from the documented semantics %r: %s' % (got, want, err)
+    # the same encoder object used again: every call converts its own input and hands out its own result object
+    # (the custom result class is mutable and appends in place, like the class of the documentation's example)
+    if (len(s) + len(cfg['rules'])) % 3 == 0:
+        s2 = case.get('s2', s[1:] + s[:1] + 'q')
+        first = enc.unicode_to_latex(s)
+        snap = list(first.chunks)
+        try:
+            want2 = M.encode_chunks(s2, model, scheme, policy, cfg['nao'])
+        except M.Fail:
+            want2 = 'FAIL'
+        try:
+            second = enc.unicode_to_latex(s2)
+            got2 = second.chunks
+        except ValueError:
+            second, got2 = None, 'FAIL'
+        except Exception as e:
+            return 'encoder raised %s on a further call: %s' % (type(e).__name__, e)
+        rec.monitor('further_calls_on_same_encoder')
+        if first.chunks != snap:
+            return 'a further call unicode_to_latex(%r) on the same encoder changed the result object of the earlier call ' \
+                   'from %r to %r' % (s2, snap, first.chunks)
+        if second is first:
+            return 'two calls on the same encoder returned the same result object'
+        if (want2 == 'FAIL') != (got2 == 'FAIL'):
+            return "further call unicode_to_latex(%r): encoder %s, model %s" % (s2, got2, want2)
+        if want2 != 'FAIL':
+            err = M.chunks_match(want2, got2)
+            if err:
+                return 'further call unicode_to_latex(%r) on the same encoder: chunks %r differ from the documented ' \
+                       'semantics %r: %s' % (s2, got2, want2, err)
     # plain string result class must give the concatenation
     try:
         plain = make_encoder(cfg, real, 'str').unicode_to_latex(s)
